@@ -24,7 +24,7 @@ ASSUMPTIONS = ["the ordinary output of the failing node in a throw cycle is unsp
 
 
 def examples(tier):
-    return 3000 if tier == "quick" else 50000
+    return 5000 if tier == "quick" else 80000
 
 
 def budget_s(tier):
